@@ -11,9 +11,12 @@ evaluation, no runner kinds).  Sub-spaces:
   keywords   true/false/null and look-alike identifiers in every primary position.
   containers list / map / call / message literals of arity 0..3 in 14 contexts.
              (terms1, shapes, keywords, containers: printed minimally and fully parenthesised by the
-             celast printer; oracle abstract(parse(text)) == term for both texts, and
-             parse(tree_dump(t)) == t with Lark tree equality for both trees.)
-  whitespace every terms1 term with <= 6 tokens x every assignment of {' ', '\\n', '\\t\\r\\f ', ' //c\\n'}
+             celast printer -- the three small spaces also with parentheses around every operand, atoms
+             included; oracle abstract(parse(text)) == term for each text, hence equality modulo paren
+             nodes, and parse(tree_dump(t)) == t with Lark tree equality for each tree.  A failing dump
+             is attributed to a root cause by term surgery, see dump_cause.)
+  whitespace every terms1 term and every 2-operator shape (one-token leaves) with <= 5 (quick) / 6 (thorough)
+             tokens x every assignment of {' ', '\\n', '\\t\\r\\f ', ' //c\\n'}
              (and '' where the two tokens are separable) to every token gap, plus leading / trailing
              variants; all must parse to a tree equal to the conventionally spaced text.
 """
@@ -38,6 +41,7 @@ NA = len(ATOMS)
 UNOPS = ("not", "neg", "dot", "dotcall", "index", "msg")      # the last three carry one inner leaf
 INNER = ("dotcall", "index", "msg")
 ROT_QUICK = (0, 3, 6, 9)
+ONE_TOKEN = [A_, LIT["true"], LIT["1"], B_, LIT['"s"'], LIT["null"]]      # leaves of the 2-operator whitespace bases
 
 
 # ---- the real parser, folded into outcomes ----------------------------------------------------------
@@ -179,13 +183,13 @@ def production(n, key):
     return (("cond", c, x, y) for c in shapes(i) for x in shapes(j) for y in shapes(n - 1 - i - j))
 
 
-def fill(shape, rot):
+def fill(shape, rot, atoms=ATOMS):
     j = [rot]
 
     def f(node):
         if node is None:
             j[0] += 1
-            return ATOMS[(j[0] - 1) % NA]
+            return atoms[(j[0] - 1) % len(atoms)]
         return node
     return mapterm(shape, f)
 
@@ -254,6 +258,8 @@ FORMS = [
     ("a o (c ? x : y)", "a {} (c ? x : y)", (BINOPS,)), ("(c ? x : y) o a", "(c ? x : y) {} a", (BINOPS,)),
     ("u c ? x : y", "{}c ? x : y", (U_,)), ("c ? u x : y", "c ? {}x : y", (U_,)), ("c ? x : u y", "c ? x : {}y", (U_,)), ("u (c ? x : y)", "{}(c ? x : y)", (U_,)),
     ("c M ? x : y", "c{} ? x : y", (M_,)), ("c ? x M : y", "c ? x{} : y", (M_,)), ("c ? x : y M", "c ? x : y{}", (M_,)), ("(c ? x : y) M", "(c ? x : y){}", (M_,)),
+    # numeric-literal lexing the language definition leaves ambiguous: counted, never compared
+    ("unspec-lexical", "{}", (("-1", "-1[a]", "-1.f", "1.f", "a-1", "a -1", "a - -1", "--1", "!-1", "a ? -1 : 1.f", "a.true", "1.0.f"),)),
     ("fixed", "{}", (("c ? x : d ? y : z", "a || b ? x : y ? u : w", "a ? b || c : d", "a ? b && c || d : e", "(c ? x : y) ? u : w",
                       "c ? (d ? x : y) : z", "a ? b : c ? d : e ? g : h", "a[c ? x : y]", "f(c ? x : y)", "f(a, c ? x : y)", "[c ? x : y]",
                       "{c ? x : y : z}", "{k: c ? x : y}", "a.f(c ? x : y)", "M{f: c ? x : y}", "(c ? x : y)", "((a))", "a[b || c]", "[a || b, c && d]",
@@ -285,7 +291,7 @@ def gap_choices(toks):
 @lru_cache(None)
 def ws_bases(maxtok):
     out = []
-    for t in terms1():
+    for t in itertools.chain(terms1(), (fill(s, 0, ONE_TOKEN) for s in shapes(2))):
         toks, glue = celast.tokens(t)
         if len(toks) <= maxtok:
             out.append((t, tuple(toks), tuple(glue)))
@@ -334,6 +340,7 @@ def dump_cause(term, printer):
     return usable[0][0], present
 
 
+DIAG_PER_CLASS = 25
 STYLES = {"min": celast.minimal, "full": celast.full, "paren-all": celast.fullest}
 
 
@@ -342,6 +349,14 @@ def check_dump(part, term, style, text, tree, space):
     part.extra["dump_round_trips"] += 1
     if mode == "ok":
         part.extra["dump_round_trips_ok"] += 1
+        return
+    usable = tuple(n for n, f in HYPS if mapterm(term, f) != term)
+    part.extra[f"diag:{mode}:{'+'.join(usable)}"] += 1
+    if part.extra[f"diag:{mode}:{'+'.join(usable)}"] > DIAG_PER_CLASS:
+        # like Part.violation beyond its cap: counted, not stored.  Every (mode, suspect constructs) class
+        # has its first DIAG_PER_CLASS members of each shard diagnosed and stored.
+        part.violation_count += 1
+        part.outcome("dump:failed (counted; attribution sampled per shard)")
         return
     cause, present = dump_cause(term, STYLES[style])
     part.outcome(f"dump:{cause}")
@@ -381,7 +396,7 @@ def check_adjacent(part, name, text):
         exp, flags = "reject", set()
     except celast.Unspec:
         part.case(nontrivial=False)
-        part.outcome("adjacent:unspec")
+        part.outcome("adjacent:unspec:" + ("accepted" if rparse(text)[0] == "T" else "not-accepted"))
         return
     if (exp == "reject") != (name == "must-reject"):
         raise runner.HarnessError(f"reference parser verdict on template {name!r} text {text!r}: {exp!r}")
@@ -423,7 +438,7 @@ def check_ws(part, term, toks, glue):
     base_text = celast.join(toks, glue)
     b = rparse(base_text)
     if b[0] != "T" or celast.abstract(b[1]) != term:
-        part.notes.append(f"whitespace base {base_text!r} not parsed as the term (reported by terms1)")
+        part.notes.append(f"whitespace base {base_text!r} not parsed as the term (reported by terms1 / shapes2)")
         b = None
     choices = gap_choices(toks)
     names = {v: k for k, v in WS.items()}
@@ -552,9 +567,9 @@ def run(ctx):
                 "binary/member, unary/member, member chains, every ?: position, the rejected ?: middle operand) against the reference parser; "
                 f"(2) every term with <= 1 operator over all tuples of {NA} atoms ({N_TERMS1}) and every operator shape with <= {kmax} operators "
                 "(14 binary, ?:, !, -, .f, .f(.), [.], {f: .}) with leaves filled left-to-right from the atom alphabet starting at rotations "
-                f"{ {n: list(r) for n, r in rots.items()} }, each printed minimally and fully parenthesised: abstract(parse(text)) == term for both "
-                "(hence equal modulo paren nodes) and parse(tree_dump(tree)) == tree for both trees; (3) whitespace/comment variants of every "
-                f"<=1-operator term with <= {MAXTOK[ctx.tier]} tokens; (4) {len(KW_NAMES)} keyword/look-alike names x {len(POSITIONS)} primary positions; "
+                f"{ {n: list(r) for n, r in rots.items()} }, each printed minimally and fully parenthesised (<=1-operator terms, (4) and (5) also with every operand "
+                "parenthesised): abstract(parse(text)) == term for each text (hence equal modulo paren nodes) and parse(tree_dump(tree)) == tree for each tree; (3) whitespace/comment variants of every "
+                f"<=1-operator term and 2-operator shape (leaves from 6 one-token atoms) with <= {MAXTOK[ctx.tier]} tokens: each gap takes one of 4 whitespace/comment strings, or nothing where the tokens stay separate; (4) {len(KW_NAMES)} keyword/look-alike names x {len(POSITIONS)} primary positions; "
                 f"(5) {len(KINDS)} container constructs x arity 0..3 x {len(CONTEXTS)} contexts. A case is one term (or one text in (1), one variant in (3)); "
                 "all are non-trivial except texts the reference does not rule on (mixed `!-` chains rejected by the parser). Distinct by construction.")
     ctx.assumptions = ["atoms outside the 13-atom alphabet, operators applied more than " + str(kmax) + " deep, and numeric literal lexing (`-1`, `1.f`: printed `- 1`, `1 .f`) are not explored",
